@@ -219,63 +219,107 @@ CUSTOM2 = (b"second503((", b"))")
 
 
 def gen_pages(rnd, n):
-    """The operator REPLACES the custom error pages in place (same directory) between deploys: a stopped service answers with
-    the page its own latest deploy read - the new page after a redeploy, still the old one without; a second service deployed
-    after the replacement shows the new page while the first keeps the old. Each group: (page version, message, request ids)."""
+    """The operator REPLACES the custom error pages in place (same directory) between deploys, services are deployed with the
+    directory that has a 503 page / one without / none, stopped, resumed, asked.  What each request must be answered is NOT
+    decided here: the history is handed to model/Pages.v as a list of operations (`pops`, Coq terms) and corr/C08pages.c08_pages_bad
+    compares the model's answers with the observed ones (`asks`: request ids in the order of the PAsk operations)."""
     H = m4.H
+    SV = {b"web": (0, b"a.example.com", b""), b"api": (1, b"b.example.com", b""), b"app": (2, b"a.example.com", b"/app")}
     out = []
     for i in range(n):
-        steps, groups = [], []
-        nreq = [0]
+        steps, pops, asks = [], [], []
+        ncmd, ntgt = [0], [0]
 
-        def deploy(cid, name, host, tgt, pages="good", prefixes=()):
-            steps.append({"op": "deploy", "id": cid, "name": H(name), "hosts": [H(host)], "prefixes": [H(x) for x in prefixes], "tls": False,
-                          "tls_redirect": False,
-                          "strip": False, "cert": "none", "pages": pages, "targets": [{"name": H(tgt), "probes": ["ok"]}],
+        def cid():
+            ncmd[0] += 1
+            return "c%d" % ncmd[0]
+
+        def deploy(name, pages="good"):
+            k, host, base = SV[name]
+            ntgt[0] += 1
+            steps.append({"op": "deploy", "id": cid(), "name": H(name), "hosts": [H(host)], "prefixes": [H(base)] if base else [], "tls": False,
+                          "tls_redirect": False, "strip": False, "cert": "none", "pages": pages,
+                          "targets": [{"name": H(b"t%d:80" % ntgt[0]), "probes": ["ok"]}],
                           "deploy_timeout": m4.DEPLOY_TIMEOUT, "drain_timeout": SEC,
-                          "topts": {k: (H(v) if isinstance(v, bytes) else v) for k, v in m4.TOPTS[0].items() if k != "tag"}})
+                          "topts": {k2: (H(v) if isinstance(v, bytes) else v) for k2, v in m4.TOPTS[0].items() if k2 != "tag"}})
+            pops.append("PDeploy %d %s" % (k, {"good": "DGood", "partial": "DPartial", "none": "DNone"}[pages]))
 
-        def stopped(cid, name, host, version, base=b""):
+        def ask(name):
+            k, host, base = SV[name]
+            rid = "p%d" % len(asks)
+            steps.append({"op": "request", "id": rid, "async": False, "host": H(host), "uri": H(base + rnd.choice([b"/", b"/x?y=1"])), "tls": False,
+                          "method": rnd.choice(["GET", "POST"]), "headers": []})
+            pops.append("PAsk %d" % k)
+            asks.append(rid)
+
+        def stop(name):
             msg = gen_msg(rnd, False)
-            steps.append({"op": "stop", "id": cid, "name": H(name), "msg": H(msg), "drain_timeout": SEC})
-            ids = []
+            steps.append({"op": "stop", "id": cid(), "name": H(name), "msg": H(msg), "drain_timeout": SEC})
+            pops.append("PStop %d %s" % (SV[name][0], str_lit(msg)))
+
+        def resume(name):
+            steps.append({"op": "resume", "id": cid(), "name": H(name)})
+            pops.append("PResume %d" % SV[name][0])
+
+        def write(v):
+            steps.append({"op": "write_pages", "version": v})
+            pops.append("PWrite %d" % v)
+
+        def stopped(name):
+            stop(name)
             for _ in range(rnd.randint(1, 2)):
-                rid = "p%d" % nreq[0]
-                nreq[0] += 1
-                steps.append({"op": "request", "id": rid, "async": False, "host": H(host), "uri": H(base + rnd.choice([b"/", b"/x?y=1"])), "tls": False,
-                              "method": rnd.choice(["GET", "POST"]), "headers": []})
-                ids.append(rid)
-            groups.append({"version": version, "msg": msg, "ids": ids})
-            steps.append({"op": "resume", "id": cid + "r", "name": H(name)})
-        variant = i % 5
-        if variant == 4:
-            # custom pages for other statuses only (no 503.html): the built-in 503 page, with the message - for the service
-            # that serves the root path and for one under a prefix
-            deploy("c0", b"web", b"a.example.com", b"ta:80", pages="partial")
-            deploy("c1", b"app", b"a.example.com", b"tb:80", pages="partial", prefixes=[b"/app"])
-            stopped("c2", b"web", b"a.example.com", 0)
-            stopped("c3", b"app", b"a.example.com", 0, base=b"/app")
-            out.append({"scenario": {"steps": steps}, "groups": groups, "variant": variant})
-            continue
-        deploy("c0", b"web", b"a.example.com", b"ta:80")
-        stopped("c1", b"web", b"a.example.com", 1)
-        steps.append({"op": "write_pages", "version": 2})
-        if variant == 0:      # redeploy: the new page
-            deploy("c2", b"web", b"a.example.com", b"tb:80")
-            stopped("c3", b"web", b"a.example.com", 2)
-        elif variant == 1:    # no redeploy: the page read at deploy time stays
-            stopped("c3", b"web", b"a.example.com", 1)
-        elif variant == 2:    # another service deployed after the replacement; the first keeps its page
-            deploy("c2", b"api", b"b.example.com", b"tc:80")
-            stopped("c3", b"api", b"b.example.com", 2)
-            stopped("c4", b"web", b"a.example.com", 1)
-        else:                 # replaced twice: back to the first page, redeployed each time
-            deploy("c2", b"web", b"a.example.com", b"tb:80")
-            stopped("c3", b"web", b"a.example.com", 2)
-            steps.append({"op": "write_pages", "version": 1})
-            deploy("c4", b"web", b"a.example.com", b"td:80")
-            stopped("c5", b"web", b"a.example.com", 1)
-        out.append({"scenario": {"steps": steps}, "groups": groups, "variant": variant})
+                ask(name)
+            resume(name)
+            if rnd.random() < 0.5:
+                ask(name)
+        variant = i % 7
+        if variant == 4:      # custom pages for other statuses only (no 503.html): root-path service and one under a prefix
+            deploy(b"web", "partial")
+            deploy(b"app", "partial")
+            stopped(b"web")
+            stopped(b"app")
+        elif variant < 4:
+            deploy(b"web")
+            stopped(b"web")
+            write(2)
+            if variant == 0:      # redeploy: the new page
+                deploy(b"web")
+                stopped(b"web")
+            elif variant == 1:    # no redeploy: the page read at deploy time stays
+                stopped(b"web")
+            elif variant == 2:    # another service deployed after the replacement; the first keeps its page
+                deploy(b"api")
+                stopped(b"api")
+                stopped(b"web")
+            else:                 # replaced twice, redeployed each time; a redeploy while stopped keeps the message
+                deploy(b"web")
+                stop(b"web")
+                ask(b"web")
+                write(1)
+                deploy(b"web")
+                ask(b"web")
+                resume(b"web")
+                ask(b"web")
+        else:                     # random histories over the three services
+            live = []
+            for _ in range(rnd.randint(8, 16)):
+                k = rnd.random()
+                name = rnd.choice([b"web", b"api", b"app"])
+                if k < 0.3 or not live:
+                    deploy(name, rnd.choice(["good", "good", "partial", "none"]))
+                    if name not in live:
+                        live.append(name)
+                elif k < 0.45:
+                    write(rnd.choice([1, 2]))
+                elif k < 0.65:
+                    stop(rnd.choice(live))
+                elif k < 0.75:
+                    resume(rnd.choice(live))
+                else:
+                    ask(rnd.choice(live))
+            for name in live:
+                ask(name)
+        out.append({"scenario": {"steps": steps}, "pops": pops, "asks": asks, "variant": variant})
     return out
 
 
@@ -284,9 +328,9 @@ def run(tier, seed):
     work = Work("C08")
     try:
         t_phase = [time.time()]
-        ok, blog = coq_build(["props/C08.vo", "props/C08held.vo", "corr/C08corr.vo", "corr/C08held.vo"])
+        ok, blog = coq_build(["props/C08.vo", "props/C08held.vo", "props/C08pages.vo", "corr/C08corr.vo", "corr/C08held.vo", "corr/C08pages.vo"])
         t_phase.append(time.time())
-        proofs_ok, pa = proof_obligations_multi(work, res, ["C08.v", "C08held.v"], ok, blog)
+        proofs_ok, pa = proof_obligations_multi(work, res, ["C08.v", "C08held.v", "C08pages.v"], ok, blog)
         gate = m4x.gate_for(["props/C08.v", "corr/C08corr.v"])
         if gate:
             proofs_ok = False
@@ -354,33 +398,32 @@ def run(tier, seed):
                     if bad or after.get("status") != 200 or not after.get("served_by"):
                         held_bad.append((j, bad, after))
         # ---- custom error pages replaced in place between deploys (same monitor, the page version of the service's latest deploy)
-        pgs = gen_pages(random.Random(seed * 37 + 3), 10 if tier == "quick" else 40)
+        pgs = gen_pages(random.Random(seed * 37 + 3), 21 if tier == "quick" else 140)
         pages_bad, pages_n = [], 0
         if harness_ok and ok and page is not None:
             p_ok, p_out, p_outs = m4x.go_run(work, [x["scenario"] for x in pgs])
             if not p_ok:
                 harness_ok, gout = False, p_out
             else:
-                items, where = [], []
+                items = []
                 for j, (x, o) in enumerate(zip(pgs, p_outs)):
                     rs = {r["id"]: r for r in o["results"]}
-                    for g in x["groups"]:
-                        obs = ["(false, (%d)%%N, %s, %s)" % (rs.get(i, {}).get("status", 0), bool_lit(bool(rs.get(i, {}).get("served_by"))),
-                                                           str_lit(bytes.fromhex(rs.get(i, {}).get("body", "")))) for i in g["ids"]]
-                        pages_n += len(obs)
-                        items.append("(%d%%nat, %s, [%s])" % (g["version"], str_lit(g["msg"]), "; ".join(obs)))
-                        where.append((j, g))
+                    obs = ["((%d)%%N, %s, (%s : str))" % (rs.get(i, {}).get("status", 0), bool_lit(bool(rs.get(i, {}).get("served_by"))),
+                                                 str_lit(bytes.fromhex(rs.get(i, {}).get("body", "")) if not rs.get(i, {}).get("served_by") else b""))
+                           for i in x["asks"]]
+                    pages_n += len(obs)
+                    items.append("([%s], [%s])" % ("; ".join(x["pops"]), "; ".join(obs)))
                 defs_p = ("Definition pg_pre : str := %s.\nDefinition pg_suf : str := %s.\n"
-                          "Definition env1 := mkEnv (mkPage pg_pre %s %s %s pg_suf) (%s, %s).\n"
-                          "Definition env2 := mkEnv (mkPage pg_pre %s %s %s pg_suf) (%s, %s).\n"
+                          "Definition pg := mkPage pg_pre %s %s %s pg_suf.\n"
+                          "Definition customs : list (nat * (str * str)) := [(1%%nat, (%s, %s)); (2%%nat, (%s, %s))].\n"
                           % (str_lit(page[0]), str_lit(page[4]), str_lit(page[1]), str_lit(page[2]), str_lit(page[3]),
-                             str_lit(CUSTOM[0]), str_lit(CUSTOM[1]), str_lit(page[1]), str_lit(page[2]), str_lit(page[3]),
-                             str_lit(CUSTOM2[0]), str_lit(CUSTOM2[1])))
-                rows = m4x.coq_map(work, IMPORTS.replace("corr.C08corr.", "corr.C08corr corr.C08held."), defs_p, items,
-                                   "fun x : nat * str * list held_obs => let '(v, m, l) := x in c08_held_bad (if Nat.eqb v 2 then env2 else env1) (negb (Nat.eqb v 0)) m l", "C08pages", shard=4)
-                for (j, g), bad in zip(where, rows):
+                             str_lit(CUSTOM[0]), str_lit(CUSTOM[1]), str_lit(CUSTOM2[0]), str_lit(CUSTOM2[1])))
+                rows = m4x.coq_map(work, IMPORTS.replace("corr.C08corr.", "model.Trace model.Pages corr.C08corr corr.C08held corr.C08pages."),
+                                   defs_p, items,
+                                   "fun x : list pop * list page_obs => let '(ops, obs) := x in c08_pages_bad pg customs ops obs", "C08pages", shard=4)
+                for j, bad in enumerate(rows):
                     if bad:
-                        pages_bad.append((j, g, bad))
+                        pages_bad.append((j, bad))
         res.coverage["custom_pages_replaced_between_deploys"] = {"scenarios": len(pgs), "answers_judged": pages_n, "bad": len(pages_bad)}
         # ---- many answers at once, real scheduler (harness/c08_race_test.go): distinct answers judged by the same rendering
         race_bad, race_rows = [], []
@@ -500,15 +543,20 @@ def run(tier, seed):
                                    "body": bytes.fromhex(r["body"]).decode("latin1")[:400]} for r in race_bad[:5]],
                 "replay": "VERIF_MSG_0..2=<hex of the messages> go test -tags verif -overlay ... -run ^TestVerifC08Race$ (harness/c08_race_test.go)"})
         if pages_bad and not mon_fail and not held_bad:
-            j, g, bad = pages_bad[0]
+            j, bad = pages_bad[0]
             rs = {r["id"]: r for r in p_outs[j]["results"]}
+            x = pgs[j]
             res.violation("pages-%d" % j, {
                 "property": "C08", "seed": seed, "tier": tier,
                 "what": "custom error pages replaced in place between deploys: a stopped service must answer 503 with the page its own "
-                        "latest deploy read, rendered with the operator's message (corr/C08held.c08_held_bad with that page)",
-                "scenario": pgs[j]["scenario"], "stop_message": g["msg"].decode("latin1"), "page_version_expected": g["version"],
-                "wrong_answers": [{"request": g["ids"][k], "status": rs.get(g["ids"][k], {}).get("status"),
-                                   "body": bytes.fromhex(rs.get(g["ids"][k], {}).get("body", "")).decode("latin1")[:300]} for k in bad]})
+                        "latest deploy read (the built-in page if that directory has no 503 page), rendered with the message of its latest "
+                        "stop; a running one forwards (model/Pages.v, corr/C08pages.c08_pages_bad)",
+                "scenario": x["scenario"], "history_as_given_to_the_model": x["pops"],
+                "wrong_answers": [{"request": x["asks"][k] if k < len(x["asks"]) else None,
+                                   "status": rs.get(x["asks"][k], {}).get("status") if k < len(x["asks"]) else None,
+                                   "served_by": rs.get(x["asks"][k], {}).get("served_by") if k < len(x["asks"]) else None,
+                                   "body": bytes.fromhex(rs.get(x["asks"][k], {}).get("body", "")).decode("latin1")[:300] if k < len(x["asks"]) else None}
+                                  for k in bad[:4]]})
         if held_bad and not mon_fail:
             j, bad, after = held_bad[0]
             x = held[j]
